@@ -261,14 +261,14 @@ def run_model(hexcases):
     return res
 
 
-def run_impl(hexcases, env=None):
+def run_impl(hexcases, env=None, per_shard=200):
     """Run the harness (real code). A worker that dies mid-batch (abort) yields
     ABORT for the case in flight and is restarted after it."""
     from concurrent.futures import ThreadPoolExecutor
     n = len(hexcases)
     if n == 0:
         return []
-    k = min(NCPU, max(1, n // 200 + 1))
+    k = min(NCPU, max(1, n // per_shard + 1))
     shards = [hexcases[i::k] for i in range(k)]
 
     def work(sh_):
